@@ -764,9 +764,9 @@ package machine
 //@   loop 1 invariant done:   ghost.finalsDone == old(ghost.finalsDone) + idx1 && t.Machine.t == t
 
 // FaultAt: the bookkeeping recovery reads, when the final handler of position k
-// (Exits first, then Enters) faulted: End handlers leave no state name.
+// (Exits first, then Enters) faulted.
 //@ pred FaultAt(t *Transition, k int) := 0 <= k && k < len(t.Exits) + len(t.Enters) && t.latestHandlerIsFinal
-//@      && (k < len(t.Exits) ? (t.latestHandlerToState == "" && !t.latestHandlerIsEnter)
+//@      && (k < len(t.Exits) ? (t.latestHandlerToState == t.Exits[k] && !t.latestHandlerIsEnter)
 //@                           : (t.latestHandlerToState == t.Enters[k - len(t.Exits)] && t.latestHandlerIsEnter))
 
 // TimeAfterOK: the transition's TimeAfter is the machine's time.
@@ -853,11 +853,12 @@ package machine
 //@   assigns  m.activeStates, m.clock, m.activeStatesMx, Machine.logEntries, ghost.phase
 //@   ghostset applied := ghost.applied + 1
 //@   ensures  inv:      ClockInv(m)
-//@   ensures  rollback_enter: !m.disposing && ghost.finalsDone >= len(m.t.Exits) ==> (forall s string :: mem(m.activeStates, s) <==> RolledBack(old(m.activeStates), m.t.Exits, m.t.Enters, ghost.finalsDone, s))
-//@   ensures  rollback_end:   !m.disposing && ghost.finalsDone < len(m.t.Exits) ==> (forall s string :: mem(m.activeStates, s) <==> RolledBack(old(m.activeStates), m.t.Exits, m.t.Enters, ghost.finalsDone, s))
+//@   ensures  rollback: !m.disposing ==> (forall s string :: mem(m.activeStates, s) <==> RolledBack(old(m.activeStates), m.t.Exits, m.t.Enters, ghost.finalsDone, s))
 //@   ensures  locks:    unlocked(m.activeStatesMx)
-//@   loop 1 invariant found: !m.disposing ==> (found <==> (t.latestHandlerIsEnter && idx1 > ghost.finalsDone))
-//@   loop 1 invariant act:   !m.disposing ==> nodup(activeStates) && subset(activeStates, m.stateNames) && (forall s string :: mem(activeStates, s) <==> (mem(old(m.activeStates), s) && !(t.latestHandlerIsEnter && (exists j int :: ghost.finalsDone <= j && j < idx1 && finals[j] == s))))
+//@   loop 1 invariant found: !m.disposing ==> (found <==> idx1 > ghost.finalsDone)
+//@   loop 1 invariant act:   !m.disposing ==> nodup(activeStates) && subset(activeStates, m.stateNames) && (forall s string :: mem(activeStates, s) <==>
+//@        ((mem(old(m.activeStates), s) && !(exists j int :: ghost.finalsDone <= j && j < idx1 && len(t.Exits) <= j && finals[j] == s))
+//@          || (exists j int :: ghost.finalsDone <= j && j < idx1 && j < len(t.Exits) && finals[j] == s)))
 //@ func (m *Machine) StateNames() (r S)
 //@   trusted shared cached copy of stateNames (its lock discipline is examined under C12)
 //@   ensures def: seqeq(r, m.stateNames)
